@@ -782,3 +782,52 @@ def units_rule(ctx: Ctx) -> None:
         if known_here and not [1 for node, _ in u.clashes if not (isinstance(node, ast.Compare) and all(isinstance(o, (ast.Eq, ast.NotEq)) for o in node.ops))]:
             ctx.ob(d, None, True, f"{known_here} index expressions with known units, no clash", sel="units:clean")
     ctx.need(n_known >= 40, f"only {n_known} expressions received a unit: seeds no longer match the code")
+
+
+@rule("ACCUM-ORDER-1", props=["C01"], floor=2)
+def accum_order(ctx: Ctx) -> None:
+    """sibling agreement in the streaming reduction: every branch concatenates
+    [accumulated result, newly reduced block] in that order (block order along the axis is
+    what arg-reductions and non-commutative combines rely on)"""
+    repo = ctx.repo
+    f = repo.get(f"{A.OPS}._partial_reduce")
+    fl, cfg = flow_of(repo, f), cfg_of(f)
+    loops = [n for n in cfg.stmts(ast.For) if isinstance(n.stmt.iter, ast.Name) and n.stmt.iter.id == f.params[0]]
+    ctx.need(len(loops) == 1, "_partial_reduce: loop over the block stream not found")
+    L = loops[0]
+    # accumulator: assigned inside the loop and initialised before it; new block: assigned in
+    # the loop from a call that takes the loop variable
+    lv = L.stmt.target.id
+    acc = {s.name for nid, ss in fl.sites.items() for s in ss if s.kind == "assign" and cfg.in_loop(nid, L.id)} & {s.name for nid, ss in fl.sites.items() for s in ss if s.kind == "assign" and not cfg.nodes[nid].loops and cfg.dominates(nid, L.id)}
+    new = {s.name for nid, ss in fl.sites.items() for s in ss if s.kind == "assign" and cfg.in_loop(nid, L.id) and s.value is not None and mentions_name(s.value, lv) and s.name not in acc and s.name != lv}
+    ctx.need(acc and new, "_partial_reduce: accumulator / new-block variables not identified")
+    cats = [c for c in f.own_nodes() if isinstance(c, ast.Call) and isinstance(c.func, ast.Attribute) and c.func.attr in ("concat", "concatenate") and c.args and isinstance(c.args[0], (ast.List, ast.Tuple)) and len(c.args[0].elts) == 2]
+    ctx.need(cats, "_partial_reduce: no two-operand concatenation found")
+
+    def side(e: ast.AST) -> str:
+        names = {n.id for n in ast.walk(e) if isinstance(n, ast.Name)}
+        # comprehension variables bound from the accumulator's items/keys count as accumulator
+        for n in ast.walk(e):
+            if isinstance(n, ast.Name) and id(n) in fl.comp_bind:
+                it, _ = fl.comp_bind[id(n)]
+                if any(isinstance(x, ast.Name) and x.id in acc for x in ast.walk(it)):
+                    if not isinstance(e, ast.Subscript):
+                        names |= acc
+        if names & new and not names & acc:
+            return "new"
+        if names & acc and not names & new:
+            return "acc"
+        if names & acc and names & new:
+            # result[k] vs reduced_chunk[k]: decide by the subscripted base
+            b = e
+            while isinstance(b, (ast.Subscript, ast.Attribute)):
+                b = b.value
+            if isinstance(b, ast.Name):
+                return "acc" if b.id in acc else "new" if b.id in new else "?"
+        return "?"
+
+    for c in cats:
+        a, b = c.args[0].elts
+        sa_, sb_ = side(a), side(b)
+        ok = sa_ == "acc" and sb_ == "new"
+        ctx.ob(f, c, ok, f"`{unparse(c, 60)}` concatenates [accumulated, new] (found [{sa_}, {sb_}])" + ("" if ok else " — the sibling branch uses the opposite order: block order along the axis is reversed for this kind of intermediate"), sel=f"accum:{unparse(c.args[0], 40)}")
